@@ -247,6 +247,32 @@ def run(chk: common.Check):
                         for w in (l[:l.find('#')].split() if '#' in l else l.split() for l in ls))
             if not named and p.sidechain_cutoffs.get_value(a, b) != p.sidechain_cutoffs.default:
                 found.append((f"default-not-used", f"unspecified pair ({a!r},{b!r}) does not fall back to the default", {"file": ls, "a": a, "b": b}))
+    # (a') look-ups are observations: asking for pairs while the file is still being read (after every line) must not change any later answer
+    nobs = 0
+    for tag, ls, names in files:
+        try:
+            fresh = fresh_params(ls)
+            from propka.parameters import Parameters as _P
+            inc = _P()
+            for l in ls:
+                inc.parse_line(l)
+                for a, b in itertools.product(names[:6], repeat=2):
+                    inc.sidechain_cutoffs.get_value(a, b)
+                    inc.interaction_matrix.get_value(a, b)
+        except Exception:
+            continue
+        nobs += 1
+        for a, b in itertools.product(names, repeat=2):
+            for tname in ("sidechain_cutoffs", "interaction_matrix"):
+                v1, v2 = getattr(fresh, tname).get_value(a, b), getattr(inc, tname).get_value(a, b)
+                if v1 != v2:
+                    found.append((f"lookup-changes-later-answers:{tname}", f"{tname} look-up ({a!r},{b!r}) gives {v2} when pairs were looked up while the file was being read, "
+                                  f"{v1} when the file is read first", {"file": ls if tag.startswith("gen") else tag, "a": a, "b": b}))
+                    break
+            else:
+                continue
+            break
+    chk.count(nobs, key=("lookups-interleaved-with-parsing",))
     for d in sq_dis:
         found.append(("squared-not-square", f"after {d['ops']} instance {d['instance']} reads plain/squared {d['impl']}, "
                       f"a square of the plain cut-off gives {d['model']}", d))
